@@ -98,7 +98,7 @@ pub fn run(seed: u64, thorough: bool, tw: &mut TraceWriter) -> Stats {
     let mut run_no = 0u64;
 
     // (i) all ordered pairs over one address, boundary incarnations, from several starting rows
-    let small = universe(&[2], &[0, 1, 2], &[0, 1, 65534, 65535]);
+    let small = universe(&[2], &[0, 1, 2], &[0, 1, 32767, 32768, 65534, 65535]);
     let nstarts = if thorough { 10 } else { 5 };
     let mut starts: Vec<Option<Member<Id>>> = vec![None];
     let mut pool = small.clone();
@@ -109,7 +109,7 @@ pub fn run(seed: u64, thorough: bool, tw: &mut TraceWriter) -> Stats {
     for s0 in &starts {
         for u1 in &small {
             for u2 in &small {
-                if !thorough && r.random_range(0..3) != 0 {
+                if r.random_range(0..if thorough { 2 } else { 6 }) != 0 {
                     continue;
                 }
                 tw.env("reset", 0, json!({"run": run_no, "driver": "c01"}));
@@ -141,7 +141,7 @@ pub fn run(seed: u64, thorough: bool, tw: &mut TraceWriter) -> Stats {
     }
 
     // (ii) random multisets in every order, with duplications, incl. own-address generations
-    let big = universe(&[2, 3, 4, 1], &[0, 1, 2], &[0, 1, 2, 65534, 65535]);
+    let big = universe(&[2, 3, 4, 1], &[0, 1, 2], &[0, 1, 2, 255, 256, 32767, 32768, 65534, 65535]);
     let nsets = if thorough { 80 } else { 40 };
     for _ in 0..nsets {
         let k = r.random_range(2..=if thorough { 6 } else { 5 });
@@ -193,7 +193,7 @@ pub fn run(seed: u64, thorough: bool, tw: &mut TraceWriter) -> Stats {
         let idb = Id::with(5, 0, Policy::None);
         let mut a = mk(0, ida, r.random(), tw);
         let mut b = mk(1, idb, r.random(), tw);
-        let with_peers = universe(&[2, 3, 4, 1, 5], &[0, 1, 2], &[0, 1, 2, 65535]);
+        let with_peers = universe(&[2, 3, 4, 1, 5], &[0, 1, 2], &[0, 1, 2, 32767, 32768, 65535]);
         for n in [&mut a, &mut b] {
             let k = r.random_range(1..7);
             let ups: Vec<Member<Id>> = (0..k).map(|_| with_peers[r.random_range(0..with_peers.len())].clone()).collect();
